@@ -50,7 +50,10 @@ RAW = _REDOS + ["\t\r\n", "x\t\r\n", "x\tq\t\r\n", "\t\t\t\t\r\n", "gemini://[/\
        "GET /wap HTTP/1.0\r\n\r\n", "GET /wapx HTTP/1.0\r\n\r\n", "h / 10\r\nabc", "h / 0\r\nextra", "h / 3\r\n\xff\xfe\xfd",
        "h /%zz 0\r\n", "h  0\r\n", "/URL:http://x/\r\n", "URL:http://x/y\"z\r\n", "URL:\r\n", "/URL:x://\r\n",
        "/" + "a" * 5000 + "\r\n", "GET /" + "%41" * 2000 + " HTTP/1.0\r\n\r\n", "\r\n", "", "\n", "\x00\r\n",
-       "/\t+\r\n", "/\t$\r\n", "/\t!\r\n", "/nonexistent\t!\r\n", "/nonexistent\t$\r\n", "/\tq\t+\r\n", "/\t\t$\r\n"]
+       "/\t+\r\n", "/\t$\r\n", "/\t!\r\n", "/nonexistent\t!\r\n", "/nonexistent\t$\r\n", "/\tq\t+\r\n", "/\t\t$\r\n",
+       # Gopher+ request suffixes in the shapes clients of other servers send (attribute lists, view selectors)
+       "/\t!+\r\n", "/\t$+\r\n", "/\t!+INFO+\r\n", "/\t!++ABSTRACT\r\n", "/\t$+INFO++VIEWS\r\n", "/\t!+INFO+ADMIN\r\n", "/\t$+VIEWS\r\n",
+       "/\t+text/plain\r\n", "/\t+application/gopher+-menu En_US\r\n", "/\t+\t1\r\n", "/\t$\t1\r\ndata\r\n.\r\n"]
 
 
 # request targets made of URL metacharacters (authority brackets, scheme, userinfo, port, query, fragment) in every URL-based
